@@ -14,3 +14,6 @@ FROM(k_from_i64, int64_t) FROM(k_from_u64, uint64_t) FROM(k_from_i32, int32_t) F
 #define FROMHEX(NAME, T) KFN unsigned long NAME(T v, char* buf, unsigned long cap, unsigned long* ret) { fsink s{buf, 0, cap}; *ret = integer_to_hex(v, s); return s.n; }
 FROMHEX(k_tohex_i64, int64_t) FROMHEX(k_tohex_u64, uint64_t)
 KFN int k_is_base10(const char* s, unsigned long n) { return is_base10(s, n); }
+// floating-point text assembly (the digit generation itself - grisu3 / snprintf - is outside reach, DESIGN 1): digits * 10^k -> JSON number text
+KFN unsigned long k_prettify(const char* digits, int length, int k, int min_exp, int max_exp, char* buf, unsigned long cap) { fsink s{buf, 0, cap}; prettify_string(digits, length, k, min_exp, max_exp, s); return s.n; }
+KFN unsigned long k_dump_buffer(const char* b, unsigned long length, char decimal_point, char* buf, unsigned long cap) { fsink s{buf, 0, cap}; dump_buffer(b, length, decimal_point, s); return s.n; }
